@@ -451,6 +451,8 @@ impl Monitor for C06 {
         if h.cfg.late_pool.is_some() {
             r.count("histories_with_late_starting_pool", 1);
         }
+        r.count("batches_straddling_activation_with_retention", h.batches_straddling_activation);
+        r.count("rewinds_to_empty_tree_of_a_pool", h.rewinds_to_empty_tree);
         r.count("rewinds_exposing_F1", h.rewinds_f1 as u64);
         r.count("f1_scan_failures", h.f1_scan_failures);
         if h.aborted.is_some() {
@@ -479,6 +481,33 @@ fn main() {
     let n = args.pick(8u64, 200u64);
     let thorough = args.tier == vh_common::Tier::Thorough;
     let only = args.extra.get("only-hist").map(|v| v.parse::<u64>().unwrap());
+    // Short directed histories first (a few seconds each): a dense retention grid over mostly empty
+    // blocks with NU6.3 activating inside a batch, and a late-starting pool rewound to its empty
+    // tree. The long random histories below rarely line these coincidences up in a quick run.
+    let n_micro = args.get_u64("micro", args.pick(8u64, 120u64));
+    let t_micro = std::time::Instant::now();
+    let micro_budget = std::time::Duration::from_secs_f64(args.budget_s * 0.4);
+    for m in 0..n_micro {
+        if only.is_some() || !r.time_left() || t_micro.elapsed() > micro_budget {
+            break;
+        }
+        let mut rng = vh_common::rng(args.shard_seed(), 90_000 + m);
+        let kind = m + args.shard + args.seed;
+        let cfg = HistCfg::micro(&mut rng, kind);
+        vh_wallet::hooks::install(0);
+        let _ = vh_wallet::hooks::take();
+        let mut mon = C06 { every: 1, ..Default::default() };
+        let res = guard(|| {
+            let mut h = Hist::new(cfg.clone(), rng);
+            h.id = 1_000_000 + m;
+            h.run(&mut [&mut mon], &mut r);
+        });
+        if let Err(p) = res {
+            r.violation(&format!("C06:panic:{}", panic_class(&p)), p, json!({"cfg": cfg.to_json(), "micro": m}));
+        }
+        r.count(if kind % 2 == 0 { "micro_histories_activation_inside_chain" } else { "micro_histories_late_pool_one_batch" }, 1);
+        let _ = vh_wallet::hooks::take();
+    }
     for i in 0..n {
         if !r.time_left() {
             break;
